@@ -2,11 +2,11 @@ package govc
 
 import (
 	"fmt"
-	"os"
 	"go/constant"
 	"go/token"
 	"go/types"
 	"math/big"
+	"os"
 
 	"golang.org/x/tools/go/ssa"
 
